@@ -5,6 +5,7 @@ import (
 	"go/constant"
 	"go/token"
 	"go/types"
+	"strings"
 
 	"golang.org/x/tools/go/ssa"
 )
@@ -17,6 +18,7 @@ func init() {
 			"R-C01-2: writer and reader agree on the frame grammar: the set of type predicates under which no length field is read/written is {IsHeartbeat} on both sides; both refuse the encrypted flag; the writer gzips exactly when the written type byte carries the compressed flag and the reader inflates exactly then; the length written is len() of the very slice written as body. " +
 			"R-C01-3: the body reader returns exactly the accumulated prefix of a buffer whose length is the declared size (cannot consume bytes of the next packet). " +
 			"R-C01-5: a buffer taken from the buffer pool and given back (Release, also deferred) in a function is never part of what that function returns (a decoded body must not alias memory the next read overwrites). " +
+			"R-C01-7: a whole packet is written (read) inside one section of the write (read) lock: the acquire helper returns success with the lock held and the packet function releases it only by defer. " +
 			"R-C01-6: every size rejection on the read path (declared wire length, inflated length) refuses exactly the sizes above MaxPacketBodySize, so a body of exactly the maximum decodes. " +
 			"R-C01-4: message-oriented transports adapted to io.Reader buffer the unread remainder of a message and serve it before reading the next message, and serving advances the remainder by exactly the copied count. " +
 			"Decides these structural necessary conditions; does not decide byte equality through gzip or the behaviour of third-party transports.",
@@ -32,6 +34,8 @@ func init() {
 				Old: "if packetType.IsHeartbeat() {\n\t\treturn &packet.TransferPacket{", New: "if packetType.IsHeartbeat() && packetType.IsCompressed() {\n\t\treturn &packet.TransferPacket{"},
 			{Name: "writer-compress-on-param", File: "internal/stream/stream_processor_write.go", Rule: "R-C01-2",
 				Old: "if packetType.IsCompressed() {\n\t\tvar err error\n\t\tbodyData, err = ps.compressData(bodyData)", New: "if useCompression {\n\t\tvar err error\n\t\tbodyData, err = ps.compressData(bodyData)"},
+			{Name: "write-lock-narrowed", File: "internal/stream/stream_processor_write.go", Rule: "R-C01-7",
+				Old: "\t// 先压缩，再加密\n", New: "\tps.writeLock.Unlock()\n\tps.writeLock.Lock()\n\t// 先压缩，再加密\n"},
 			{Name: "ws-drop-remainder", File: "internal/protocol/adapter/websocket_conn.go", Rule: "R-C01-4",
 				Old: "\tn := copy(p, data)\n\n\t// 如果数据未完全读取，缓存剩余部分\n\tif n < len(data) {\n\t\tc.readBuf = append(c.readBuf, data[n:]...)\n\t}\n\n\treturn n, nil\n}\n\n// Write 实现 io.Writer\nfunc (c *wsServerConn)",
 				New: "\tn := copy(p, data)\n\n\treturn n, nil\n}\n\n// Write 实现 io.Writer\nfunc (c *wsServerConn)"},
@@ -448,6 +452,62 @@ func runC01(r *Report) {
 			}
 		}
 		r.Floor("R-C01-3", 2, "body accumulate loop and result slice")
+	}
+
+	// ---- R-C01-7 one packet, one critical section ------------------------------------------
+	// Frames of concurrent writers (data, heartbeats, acks) must not interleave inside a packet and
+	// concurrent readers must not split one: the acquire helpers return success with the lock held,
+	// and the packet functions release it only by defer (no explicit unlock between the fields).
+	for _, pr := range []struct {
+		acq, lock string
+		fn        *ssa.Function
+	}{
+		{"StreamProcessor.acquireWriteLock", "writeLock", writePacket},
+		{"StreamProcessor.acquireReadLock", "readLock", readPacket},
+	} {
+		if af := r.need("R-C01-7", pkg, pr.acq); af != nil {
+			ls := ComputeLockSets(af, nil)
+			for _, ret := range Returns(af) {
+				held := ls.Held(ret, pr.lock) == "W"
+				if RetErrKind(ret) == "nil" {
+					r.Ob("R-C01-7", ret.Pos(), held, "a successful "+pr.acq+" returns with "+pr.lock+" held", pr.acq, "acquire-holds-lock")
+				} else {
+					r.Ob("R-C01-7", ret.Pos(), !held, "a failed "+pr.acq+" returns with "+pr.lock+" released", pr.acq, "failed-acquire-releases")
+				}
+			}
+		}
+		acqs := Calls(pr.fn, false, pr.acq)
+		okAcq := len(acqs) == 1
+		if okAcq {
+			// every raw endpoint use in the packet function follows the successful acquire ...
+			// (R-C16-3 decides that for all uses); here: the lock is not given up before the function ends
+			explicit := 0
+			for _, g := range samePkgReach(pr.fn, 2) {
+				if Outermost(g).Name() == "acquireWriteLock" || Outermost(g).Name() == "acquireReadLock" {
+					continue
+				}
+				Instrs(g, func(in ssa.Instruction) {
+					c, ok := in.(*ssa.Call)
+					if !ok {
+						return
+					}
+					if id, op, ok := lockOp(c); ok && op == "Unlock" && strings.HasSuffix(id, pr.lock) {
+						explicit++
+					}
+				})
+			}
+			deferred := false
+			Instrs(pr.fn, func(in ssa.Instruction) {
+				if d, ok := in.(*ssa.Defer); ok {
+					if id, op, ok := lockOp(d); ok && op == "Unlock" && strings.HasSuffix(id, pr.lock) && ErrOK(d.Block(), acqs[0]) {
+						deferred = true
+					}
+				}
+			})
+			r.Ob("R-C01-7", CallPos(acqs[0]), explicit == 0 && deferred, fmt.Sprintf("%s holds %s from the successful acquire to its return (deferred unlock: %v, explicit unlocks on the packet path: %d): the fields of one packet are written/read in one critical section", pr.fn.Name(), pr.lock, deferred, explicit), pr.fn.Name(), "one-section-per-packet")
+		} else {
+			r.Fail("R-C01-7", pr.fn.Pos(), fmt.Sprintf("expected one %s call in %s, found %d", pr.acq, pr.fn.Name(), len(acqs)), pr.fn.Name(), "one-section-per-packet")
+		}
 	}
 
 	// ---- R-C01-6 size limits accept exactly the bodies the format allows ------------
